@@ -100,7 +100,14 @@ def _lift(job):
         r['affs'] = [EJ.to_json(a, X) for a in affs]
         r['st'] = 'ok'
         return r
-    st, r = irlib.guarded(work, None, 10)
+    def twice(_):
+        # decoded and lifted twice in this process: a second lifting that differs from the first is judged as well
+        a = work(None)
+        b2 = work(None)
+        if b2 != a:
+            a['second'] = b2
+        return a
+    st, r = irlib.guarded(twice, None, 10)
     if st == 'ok':
         return r
     if st == 'timeout':
@@ -146,6 +153,9 @@ def build_records(insts, base, seed, start_id=0):
         elif o['st'] == 'exc':
             rec['exc'] = o['exc']
         recs.append(rec)
+        o2 = o.get('second')
+        if o2 is not None and o2.get('st') == 'ok' and o2['l'] == len(b):
+            recs.append(dict(rec, id=1000000 + rid, affs=o2['affs'], st='ok', impl_str=o2.get('str', '') + '   (second lifting in one process)'))
     return recs, excl
 
 
